@@ -170,8 +170,9 @@ PLANS = {
     ),
     'C10': dict(
         module='RucteProps.C10',
+        extra_modules=['RucteProps.C10Tree'],
         needs_tables=True,
-        theorems=['Ructe.C10.others_silent', 'Ructe.C10.valid_template_declared', 'Ructe.C10.broken_template_reported', 'Ructe.C10.subdir_declared', 'Ructe.C10.handleEntries_append', 'Ructe.C10.suffix_table'],
+        theorems=['Ructe.C10.others_silent', 'Ructe.C10.valid_template_declared', 'Ructe.C10.broken_template_reported', 'Ructe.C10.subdir_declared', 'Ructe.C10.handleEntries_append', 'Ructe.C10.suffix_table', 'Ructe.C10.tree_mirror_file', 'Ructe.C10.subdir_mod_declared', 'Ructe.C10.template_fn_declared', 'Ructe.C10.decl_only_with_file'],
         runs=[dict(suite='script', mix='tree', n=dict(quick=200, thorough=4000), projection='script+files+stdout', tags=['C10'])],
         correspondence='the whole OUT_DIR (paths and bytes) and stdout of compile_templates on a directory tree vs Ructe.build given the observed read_dir order',
         rule='random trees to depth 4 with identifier stems / directory names, mixed suffixes, same stem under different suffixes, non-template files, empty directories, broken templates among valid ones; oracle: exactly the expected files, each the code generated for that template alone, declaration chains present, broken templates warned and undeclared; non-trivial = distinct run outputs',
@@ -218,7 +219,8 @@ PLANS = {
     'C08': dict(
         module='RucteProps.C08',
         theorems=['Ructe.C08.byteString_roundtrip', 'Ructe.C08.strDebug_roundtrip', 'Ructe.C08.name_raw_counterexample'],
-        runs=[dict(suite='script', mix='statics', n=dict(quick=200, thorough=4000), projection='script+files', tags=['C08'], statics_oracle=True)],
+        runs=[dict(suite='script', mix='statics', n=dict(quick=200, thorough=4000), projection='script+files', tags=['C08'], statics_oracle=True),
+              dict(suite='script', mix='statics', n=dict(quick=40, thorough=400), projection='script+names', tags=['C08'], args=['--keep'], statics_e2e=dict(quick=24, thorough=200))],
         correspondence='text of statics.rs vs Ructe.Statics.finish; every printed content / path / name literal decoded by the Lean model of rustc\'s lexer',
         rule='as C07, all five add_* entry points; oracle: decoded content literal = data, decoded include_bytes! path = file path, decoded name literal = published URL name; non-trivial = items checked',
         assumptions=['rustc lexes literals as the Rust Reference says (e2e compile is the judge)'],
@@ -230,7 +232,8 @@ PLANS = {
         module='RucteProps.C09',
         extra_modules=['RucteProps.C09Hist'],
         theorems=['Ructe.C09.btree_insert_sorted', 'Ructe.C09.btree_keys', 'Ructe.C09.btree_perm', 'Ructe.C09.get_exact', 'Ructe.C09.get_sound', 'Ructe.C09.get_complete', 'Ructe.C09.staticsLine_lists', 'Ructe.C09.statics_complete', 'Ructe.C09.statics_sorted_nodup', 'Ructe.C09.statics_order_independent', 'Ructe.C09.get_finds_exactly_added'],
-        runs=[dict(suite='script', mix='statics', n=dict(quick=200, thorough=4000), projection='script+files+names', tags=['C09'], statics_oracle=True)],
+        runs=[dict(suite='script', mix='statics', n=dict(quick=200, thorough=4000), projection='script+files+names', tags=['C09'], statics_oracle=True),
+              dict(suite='script', mix='statics', n=dict(quick=40, thorough=400), projection='script+names', tags=['C09'], args=['--keep'], statics_e2e=dict(quick=24, thorough=200))],
         correspondence='the STATICS line and names of statics.rs vs the model',
         rule='as C07 with name sets straddling - . _ digits upper/lower case and common prefixes, shuffled insertion orders (twins); oracle: STATICS lists each published name once in ascending byte order; non-trivial = items checked',
         assumptions=['Rust Ord for str and BTreeMap<String,_> are byte-lexicographic; binary_search_by_key finds an element iff present in a sorted slice'],
@@ -242,7 +245,8 @@ PLANS = {
         module='RucteProps.C16',
         extra_modules=['RucteProps.C09Hist'],
         theorems=['Ructe.C16.mangle_ascii', 'Ructe.C16.mangle_is_ident', 'Ructe.C16.mangle_not_keyword', 'Ructe.C16.getNames_maps', 'Ructe.C16.getNames_keeps', 'Ructe.C09.getNames_maps_all'],
-        runs=[dict(suite='script', mix='statics', n=dict(quick=200, thorough=4000), projection='script+names', tags=['C16'], statics_oracle=True)],
+        runs=[dict(suite='script', mix='statics', n=dict(quick=200, thorough=4000), projection='script+names', tags=['C16'], statics_oracle=True),
+              dict(suite='script', mix='statics', n=dict(quick=40, thorough=400), projection='script+names', tags=['C16'], args=['--keep'], statics_e2e=dict(quick=24, thorough=200))],
         correspondence='identifiers (keys of get_names(), item names) vs Ructe.mangle',
         rule='as C07; oracle: identifier = every non-alphanumeric char replaced by _, n before a leading digit, legal Rust identifier; non-trivial = items checked',
         assumptions=['char::is_alphanumeric on non-ASCII scalars is a parameter of the model'],
@@ -601,6 +605,159 @@ def statics_oracle(res, ctx):
     return fails, n_items
 
 
+def rust_bytes_lit(b):
+    return 'b"' + ''.join('\\x%02x' % c for c in b) + '"'
+
+
+def statics_e2e(res, ctx, tags, feat='off', limit=24):
+    """Compile the generated statics module with rustc and read everything back:
+    STATICS order and contents, StaticFile::get on members and near misses, every item by its
+    identifier (and `mime` under mime03)."""
+    import concurrent.futures, glob, shutil
+    metas = []
+    mp = res['wdir'] + '/scenarios.jsonl'
+    if not os.path.exists(mp):
+        return [], 0
+    by_line = {}
+    k = 0
+    for i, req in enumerate(res['req']):
+        if req.startswith('script '):
+            by_line[k] = i
+            k += 1
+    for k, l in enumerate(open(mp)):
+        try:
+            metas.append((k, json.loads(l)))
+        except Exception:
+            pass
+    extern = []
+    if feat == 'mime03':
+        deps = os.path.join(os.path.dirname(ctx['binary_paths'].get('mime03', '')), 'deps')
+        rl = sorted(glob.glob(deps + '/libmime-*.rlib'))
+        if not rl:
+            return [dict(tags=tags, kind='e2e-setup', case=0, detail='libmime rlib not found under ' + deps)], 0
+        extern = ['--extern', 'mime=' + rl[0], '-L', 'dependency=' + deps]
+    jobs = []
+    for k, m in metas:
+        i = by_line.get(k)
+        if i is None or len(jobs) >= limit:
+            continue
+        adds = expected_statics(res['req'][i])
+        if not adds:
+            continue
+        idents = [a['ident'] for a in adds]
+        urls = [a['url'] for a in adds]
+        if len(set(idents)) != len(idents) or len(set(urls)) != len(urls):
+            continue          # two files under one identifier / URL name: outside the property's domain
+        if not all(x.isascii() for x in idents):
+            pass
+        jobs.append((k, i, m, adds))
+    fails = []
+
+    def one(job):
+        k, i, m, adds = job
+        out = m['out']
+        sp = out + '/templates/statics.rs'
+        if not os.path.exists(sp):
+            return [dict(tags=tags, kind='e2e-missing', case=i, detail=sp + ' missing (scenario directory not kept?)')]
+        wd = res['wdir'] + f'/e2e{k}'
+        os.makedirs(wd, exist_ok=True)
+        names = sorted(a['url'] for a in adds)
+        probes = set(names)
+        for n in names:
+            probes |= {n[:-1], n + b'x', n.swapcase(), n[1:], n[:len(n) // 2]}
+        probes |= {b'', b'zzz', b'-', b'/'}
+        probes = sorted(p for p in probes if p.decode('utf-8', 'ignore').encode() == p)
+        src = ['#![allow(warnings)]', 'mod statics { include!(%s); }' % json.dumps(sp),
+               'fn hex(b: &[u8]) -> String { if b.is_empty() { return "-".into(); } b.iter().map(|x| format!("{:02x}", x)).collect() }',
+               'fn main() {',
+               '  for s in statics::STATICS { println!("S {} {}", hex(s.name.as_bytes()), hex(s.content)); }']
+        for p in probes:
+            src.append('  { let p = std::str::from_utf8(%s).unwrap(); println!("G {} {}", hex(p.as_bytes()), match statics::StaticFile::get(p) { Some(s) => hex(s.name.as_bytes()), None => "none".to_string() }); }' % rust_bytes_lit(p))
+        for a in adds:
+            ident = a['ident'].decode('utf-8', 'replace')
+            src.append('  println!("N %s {}", hex(statics::%s.name.as_bytes()));' % (a['ident'].hex(), ident))
+            if feat == 'mime03':
+                src.append('  println!("M %s {}", statics::%s.mime);' % (a['ident'].hex(), ident))
+        src.append('}')
+        open(wd + '/main.rs', 'w').write('\n'.join(src) + '\n')
+        c = subprocess.run(['rustc', '--edition', '2021', '--error-format=short', '-C', 'debuginfo=0', '-o', wd + '/bin', wd + '/main.rs'] + extern,
+                           capture_output=True, text=True)
+        scen = describe_script_req(res['req'][i])
+        if c.returncode != 0:
+            errs = ' | '.join(l for l in c.stderr.split('\n') if 'error' in l)[:1200]
+            return [dict(tags=tags, kind='statics-module-does-not-compile', case=i, detail=errs, request=scen)]
+        r = subprocess.run([wd + '/bin'], capture_output=True, text=True)
+        lines = r.stdout.split('\n')
+        out_f = []
+
+        def fail(kind, detail):
+            out_f.append(dict(tags=tags, kind=kind, case=i, detail=detail, request=scen))
+        got_s = [(unhex(l.split(' ')[1]), unhex(l.split(' ')[2])) for l in lines if l.startswith('S ')]
+        if [n for n, _ in got_s] != names:
+            fail('STATICS-order', f'compiled STATICS names {[n for n, _ in got_s]!r}, expected ascending {names!r}')
+        bycontent = {}
+        for a in adds:
+            if a['data'] is not None:
+                bycontent[a['url']] = a['data']
+            else:
+                try:
+                    bycontent[a['url']] = open(a['path'], 'rb').read()
+                except OSError:
+                    bycontent[a['url']] = None
+        for n, c2 in got_s:
+            want = bycontent.get(n)
+            if want is not None and c2 != want:
+                fail('content', f'StaticFile {n!r}: content has {len(c2)} bytes, the source has {len(want)} (first difference at {next((j for j, (x, y) in enumerate(zip(c2, want)) if x != y), min(len(c2), len(want)))})')
+        for l in lines:
+            f = l.split(' ')
+            if f[0] == 'G':
+                p, g = unhex(f[1]), f[2]
+                want = p.hex() or '-' if p in names else 'none'
+                if (g if g != 'none' else 'none') != (want if want != 'none' else 'none'):
+                    fail('get', f'StaticFile::get({p!r}) = {("Some(" + repr(unhex(g)) + ")") if g != "none" else "None"}, expected {"Some" if p in names else "None"}')
+            elif f[0] == 'N':
+                ident, g = unhex(f[1]), unhex(f[2])
+                want = [a['url'] for a in adds if a['ident'] == ident][-1]
+                if g != want:
+                    fail('named-item', f'statics::{ident.decode()}.name = {g!r}, expected {want!r}')
+            elif f[0] == 'M':
+                ident, g = unhex(f[1]), ' '.join(f[2:])
+                a = [a for a in adds if a['ident'] == ident][-1]
+                low = a['ext'].decode('utf-8', 'replace').lower()
+                okset = REGISTERED.get(low, ['application/octet-stream'])
+                if g not in okset and not (g == 'application/octet-stream' and low not in MUST_KNOW['mime03']):
+                    fail('mime-value', f'statics::{ident.decode()}.mime = {g}, expected {" or ".join(okset)} for suffix {low!r}')
+        shutil.rmtree(wd, ignore_errors=True)
+        return out_f
+    with concurrent.futures.ThreadPoolExecutor(max_workers=12) as ex:
+        for r in ex.map(one, jobs):
+            fails += r
+    return fails, len(jobs)
+
+
+def describe_script_req(req):
+    f = req.split(' ')
+    try:
+        ops = [] if f[6] == '-' else f[6].split(';')
+        out = []
+        for o in ops:
+            t = o.split(':')
+            if t[0] in ('F', 'B'):
+                out.append(f"{'add_file' if t[0] == 'F' else 'add_file_data'}({txt(t[1])!r}, {len(unhex(t[2]))} bytes)")
+            elif t[0] == 'A':
+                out.append(f'add_file_as({txt(t[1])!r}, {txt(t[2])!r})')
+            elif t[0] == 'D':
+                ents, _ = parse_entries(':'.join(t[2:]))
+                out.append(f"add_files({txt(t[1])!r}) listing {[e[1].decode('utf-8', 'replace') for e in ents]}")
+            elif t[0] == 'S':
+                out.append(f'add_files_as({txt(t[1])!r}, {txt(t[2])!r})')
+            elif t[0] == 'T':
+                out.append(f'compile_templates({txt(t[1])!r})')
+        return '; '.join(out)[:3000]
+    except Exception:
+        return req[:2000]
+
+
 def proj_script(keys):
     def f(req, ans):
         if not req.startswith('script '):
@@ -771,10 +928,12 @@ def execute(prop, plan, ctx):
     cov = dict(evaluations=0, distinct_nontrivial=0, distribution={})
     for k, r in enumerate(plan['runs']):
         binary = ctx['binary']
+        ctx.setdefault('binary_paths', {})
         if r.get('features'):
             binary, err = ctx['build_harness'](r['features'])
             if binary is None:
                 return dict(error='harness build with features ' + ','.join(r['features']) + ' failed: ' + err[-1500:])
+            ctx['binary_paths'][r['features'][0]] = binary
         res = ctx['run_suite'](binary, ctx['driver'], r, ctx['tier'], ctx['seed'], f"{ctx['work']}/run{k}")
         if 'error' in res:
             return dict(error=res['error'])
@@ -801,6 +960,17 @@ def execute(prop, plan, ctx):
             sf, nitems = statics_oracle(res, ctx)
             oracle += [o for o in sf if set(o['tags']) & set(r['tags'])]
             st['statics.items_checked'] = nitems
+        if r.get('statics_e2e'):
+            ef, njobs = statics_e2e(res, ctx, r['tags'], feat=(r.get('features') or ['off'])[0], limit=r['statics_e2e'][ctx['tier']])
+            oracle += ef
+            st['statics.e2e_modules_compiled'] = njobs
+        if '--keep' in r.get('args', []):
+            import glob as _g, shutil as _sh
+            for l in open(res['wdir'] + '/scenarios.jsonl') if os.path.exists(res['wdir'] + '/scenarios.jsonl') else []:
+                try:
+                    _sh.rmtree(json.loads(l)['root'], ignore_errors=True)
+                except Exception:
+                    pass
         cov['evaluations'] += st.get('cases', len(res['req']))
         cov['distinct_nontrivial'] += sum(v for kk, v in st.items() if kk.startswith('distinct.'))
         cov['distribution'][f"{r['suite']}:{r.get('mix', 'all')}"] = st
